@@ -13,7 +13,11 @@ RULE = ('E1: the 21 validating classes + Basic.Properties (from the spec '
         'name sites in thorough; code points 0..0x2FF and 64 look-alikes at '
         'every name site; deprecated fields x fixed/other values; '
         'delivery_mode -1..256; each three ways: constructor, setattr + '
-        'frame.marshal (the same object encoded three times), and as received bytes through frame.unmarshal. '
+        'frame.marshal (the same object encoded three times), and as received bytes through frame.unmarshal; '
+        'object reuse: one long-lived object per history, its attribute '
+        'assigned every sequence of length 2 and 3 over 3-6 freshly built '
+        'valid / broken values (strings of 4 common lengths), encoded after '
+        'every step / first and last / last only. '
         'Oracle: an independent predicate written from the statement; '
         'ValueError iff broken; never on decode. A case is (site, value, '
         'way); non-trivial = value differs from the default.')
@@ -71,6 +75,7 @@ def tasks(tier, seed):
     out = [('props',)]
     for name, arg, kind in sites():
         out.append(('site', name, arg))
+        out.append(('reuse', name, arg))
         if kind in ('exchange', 'queue') and (
                 tier == 'thorough' or (name, arg) in FULL_SWEEP_QUICK):
             for lo in range(0, 0x110000, 0x8000):
@@ -213,6 +218,100 @@ def check_value(ctx, m, arg, kind, value, ways=('constructor', 'setattr',
                 ctx.outcome('decoded')
 
 
+def fresh(spec):
+    """Build a value anew (never a shared constant or an interned string):
+    the object of an earlier step is released when the attribute is
+    overwritten, so a later one may even take its address."""
+    if spec[0] == 'str':
+        return ''.join([spec[1]] * spec[2]) + spec[3]
+    return spec[1]
+
+
+def reuse_alphabet(kind, length):
+    """[(value spec, broken?)] - two valid and two broken values, the
+    strings of one common length so that they can replace each other."""
+    if isinstance(kind, tuple):
+        fixed = kind[1]
+        if isinstance(fixed, bool):
+            return [(('val', False), False), (('val', True), True)]
+        if isinstance(fixed, int):
+            return [(('val', 0), False), (('val', 7), True),
+                    (('val', 65535), True)]
+        return [(('str', '', 0, fixed), False), (('str', 'x', 1, ''), True),
+                (('str', '0', 2, ''), True)]
+    limit = {'vhost': 127, 'exchange': 127}.get(kind, 256)
+    out = [(('str', 'a', length, ''), False),
+           (('str', 'b', length - 1, '.'), False),
+           (('str', 'o', 5, ''), False)]
+    if kind != 'vhost':
+        out += [(('str', '*', length, ''), True),
+                (('str', 'a', length - 1, '\n'), True)]
+    out.append((('str', 'c', limit + 1, ''), True))
+    return out
+
+
+def check_reuse(ctx, m, arg, kind):
+    """ONE long-lived method object per history: its attribute is assigned
+    a sequence of freshly built values, encoded after some of the steps; each
+    encode must raise ValueError iff the CURRENT value breaks the constraint
+    (validation remembered from an earlier value / earlier encode shows)."""
+    import itertools
+    p = lib.pamqp()
+    cls = corpus.lib_class_by_name(m)
+    lengths = (20, 33, 64, 100) if not isinstance(kind, tuple) else (0,)
+    for length in lengths:
+        alpha = reuse_alphabet(kind, length)
+        n = len(alpha)
+        for depth in (2, 3):
+            for seq in itertools.product(range(n), repeat=depth):
+                # encode after: every step / first and last / last only
+                for mode in ('all', 'ends', 'last'):
+                    ctx.case((m.name, arg, 'reuse', length, seq, mode), True,
+                             sample=lambda: {
+                                 'site': '%s.%s' % (m.name, arg),
+                                 'assigned': [alpha[i][0] for i in seq],
+                                 'encode_after': mode})
+                    obj = cls()
+                    for pos, i in enumerate(seq):
+                        setattr(obj, arg, fresh(alpha[i][0]))
+                        if not (mode == 'all' or pos == depth - 1 or
+                                (mode == 'ends' and pos == 0)):
+                            continue
+                        try:
+                            if pos % 2:
+                                obj.marshal()
+                            else:
+                                p.frame.marshal(obj, 1)
+                            raised = False
+                        except ValueError:
+                            raised = True
+                        except Exception:  # noqa
+                            raised = False
+                        ctx.calls()
+                        ctx.valid()
+                        if raised != alpha[i][1]:
+                            ctx.outcome('false-reject' if raised
+                                        else 'false-accept')
+                            ctx.violation(
+                                'validate|{}.{}|reuse|{}|{}|{}'.format(
+                                    m.name, arg, length, seq, mode),
+                                '{}: one object, {} assigned {} in turn '
+                                '(encoded after {} steps): at step {} the '
+                                'encode {} although the current value {} the '
+                                'constraint'.format(
+                                    m.name, arg,
+                                    [short(fresh(alpha[j][0]), 24)
+                                     for j in seq], mode, pos + 1,
+                                    'raised ValueError' if raised
+                                    else 'was accepted',
+                                    'breaks' if alpha[i][1] else 'satisfies'),
+                                {'class': m.name, 'arg': arg, 'reuse': True},
+                                'ValueError' if alpha[i][1] else 'accepted',
+                                'ValueError' if raised else 'accepted')
+                            break
+                        ctx.outcome('rejected' if raised else 'accepted')
+
+
 def name_values():
     for n in LENGTHS:
         yield 'a' * n
@@ -302,7 +401,9 @@ def run(task, ctx):
     m = spec_table.BY_NAME[task[1]]
     arg = task[2]
     k = kind_of_site(m.name, arg)
-    if kind == 'site':
+    if kind == 'reuse':
+        check_reuse(ctx, m, arg, k)
+    elif kind == 'site':
         if isinstance(k, tuple):
             fixed = k[1]
             if isinstance(fixed, bool):
@@ -360,5 +461,8 @@ def replay(case, ctx):
                           v['case'].get('value') == case['value']]
         return
     m = spec_table.BY_NAME[case['class']]
+    if case.get('reuse'):
+        check_reuse(ctx, m, case['arg'], kind_of_site(m.name, case['arg']))
+        return
     check_value(ctx, m, case['arg'], kind_of_site(m.name, case['arg']),
                 fromjson(case['value']))
